@@ -113,6 +113,15 @@ LeftJoin(A, B, F(_)) ==
   Flatten([i \in 1..Len(A) |->
      LET ext == Flatten([j \in 1..Len(B) |-> IF Compat(A[i], B[j]) /\ F(Merge(A[i], B[j])) THEN <<Merge(A[i], B[j])>> ELSE <<>>])
      IN IF ext = <<>> THEN <<A[i]>> ELSE ext])
+(* named deviation KF_C04_values_leftjoin: evalLeftJoin's "re-check without prior bindings" forgets the variables a
+   VALUES block bound (VALUES contributes nothing to _vars), so a row with no compatible extension is dropped when the
+   OPTIONAL part matches on its own under the remaining bindings.  pv = variables bound by the non-VALUES elements before *)
+LeftJoinDev(A, B, F(_), pv) ==
+  Flatten([i \in 1..Len(A) |->
+     LET ext == Flatten([j \in 1..Len(B) |-> IF Compat(A[i], B[j]) /\ F(Merge(A[i], B[j])) THEN <<Merge(A[i], B[j])>> ELSE <<>>])
+         mr  == RestrictMu(A[i], pv)
+     IN IF ext # <<>> THEN ext
+        ELSE IF \E j \in 1..Len(B) : Compat(mr, B[j]) /\ F(Merge(mr, B[j])) THEN <<>> ELSE <<A[i]>>])
 Minus(A, B) == SelectSeq(A, LAMBDA m : \A j \in 1..Len(B) : ~Compat(m, B[j]) \/ DOMAIN m \cap DOMAIN B[j] = {})
 FilterSeq(A, P(_)) == SelectSeq(A, P)
 Extend(A, v, F(_)) == [i \in 1..Len(A) |-> LET x == F(A[i]) IN IF IsErr(x) \/ v \in DOMAIN A[i] THEN A[i] ELSE Bind1(A[i], v, x)]
@@ -132,6 +141,20 @@ ExtTP(tp, G, mu) ==
 RECURSIVE EvalBGP(_, _, _, _)
 EvalBGP(tps, i, G, Om) == IF i > Len(tps) THEN Om
                           ELSE EvalBGP(tps, i + 1, G, Flatten([j \in 1..Len(Om) |-> SetToSeq(ExtTP(tps[i], G, Om[j]))]))
+
+(* ---- variables in scope for SELECT-star -------------------------------------------------------- *)
+RECURSIVE VarsOfGroup(_)
+VarsOfTP(tp) == {tp[i].v : i \in {j \in 1..3 : IsVar(tp[j])}}
+VarsOfElt(e) ==
+  CASE e.t = "bgp"      -> UNION {VarsOfTP(e.tps[i]) : i \in 1..Len(e.tps)}
+    [] e.t \in {"group", "optional"} -> VarsOfGroup(e.g)
+    [] e.t = "union"    -> UNION {VarsOfGroup(e.gs[i]) : i \in 1..Len(e.gs)}
+    [] e.t = "graph"    -> VarsOfGroup(e.g) \cup (IF IsVar(e.name) THEN {e.name.v} ELSE {})
+    [] e.t = "bind"     -> {e.v}
+    [] e.t = "values"   -> SToSet(e.vars)
+    [] e.t = "subselect" -> SToSet(e.q.proj)
+    [] OTHER            -> {}
+VarsOfGroup(g) == UNION {VarsOfElt(g.elts[i]) : i \in 1..Len(g.elts)}
 
 (* ---- group graph patterns: translation 18.2.2 fused with evaluation 18.5 ---------------------- *)
 (* c.active is the active graph; filters of a group apply to the whole group whatever their position *)
@@ -163,7 +186,9 @@ EvalElts(elts, i, Om, c, outer) ==
          CASE e.t = "optional" ->
                  LET FS == FiltersOf(e.g)
                      B  == EvalGroup(NonFilterGroup(e.g), c, outer)
-                 IN LeftJoin(Om, B, LAMBDA m : AllHold(FS, m, c))
+                     pv == UNION {VarsOfElt(elts[j]) : j \in {n \in 1..(i - 1) : elts[n].t # "values"}}
+                 IN IF c.dev2 THEN LeftJoinDev(Om, B, LAMBDA m : AllHold(FS, m, c), pv)
+                    ELSE LeftJoin(Om, B, LAMBDA m : AllHold(FS, m, c))
            [] e.t = "minus"  -> Minus(Om, EvalGroup(e.g, c, outer))
            [] e.t = "bind"   -> Extend(Om, e.v, LAMBDA m : EvalExpr(e.e, m, c))
            \* named deviation KF_C04_pushdown (c.dev): a nested group joined after other elements is evaluated once per
@@ -176,20 +201,6 @@ EvalGroup(g, c, outer) ==
   LET FS == FiltersOf(g)
       Om == EvalElts(NonFilterGroup(g).elts, 1, <<outer>>, c, outer)
   IN IF FS = {} THEN Om ELSE SelectSeq(Om, LAMBDA m : AllHold(FS, m, c))
-
-(* ---- variables in scope for SELECT-star -------------------------------------------------------- *)
-RECURSIVE VarsOfGroup(_)
-VarsOfTP(tp) == {tp[i].v : i \in {j \in 1..3 : IsVar(tp[j])}}
-VarsOfElt(e) ==
-  CASE e.t = "bgp"      -> UNION {VarsOfTP(e.tps[i]) : i \in 1..Len(e.tps)}
-    [] e.t \in {"group", "optional"} -> VarsOfGroup(e.g)
-    [] e.t = "union"    -> UNION {VarsOfGroup(e.gs[i]) : i \in 1..Len(e.gs)}
-    [] e.t = "graph"    -> VarsOfGroup(e.g) \cup (IF IsVar(e.name) THEN {e.name.v} ELSE {})
-    [] e.t = "bind"     -> {e.v}
-    [] e.t = "values"   -> SToSet(e.vars)
-    [] e.t = "subselect" -> SToSet(e.q.proj)
-    [] OTHER            -> {}
-VarsOfGroup(g) == UNION {VarsOfElt(g.elts[i]) : i \in 1..Len(g.elts)}
 
 (* ---- solution modifiers and aggregates (18.5, 18.2.4, 18.2.5) ------------------------------------- *)
 (* order of sort keys: unbound < blank node < IRI < literal; numerics by value, strings by code point *)
